@@ -284,6 +284,19 @@ def exact_geobox(rng, Affine, GeoBox, kind, shape=None):
             ny, nx = rng.choice([3, 40, 300]), rng.choice([5, 64, 500])
         A = Affine(r, b, 151.25, d, -r, -33.75)
         crs = rng.choice(["EPSG:4326", "EPSG:4326", "EPSG:3857", None])
+    elif kind == "small-angle":
+        # rotated / sheared at every pixel-size scale (2**-19 deg ... 2**16 m) x small slopes (2**-12 ... 2**-4):
+        # dyadic off-diagonal terms from ~1e-10 up to ~4e3
+        e = rng.randint(-19, 16)
+        r = 2.0 ** e
+        b = rng.choice([1, -1]) * 2.0 ** (e - rng.randint(4, 12))
+        d = rng.choice([0, -b, b, b / 2])
+        if shape is None:
+            ny, nx = rng.choice([2, 9, 60]), rng.choice([3, 17, 80])
+        ox = 151.25 if e < -8 else 8192.0 * rng.randint(-60, 60)
+        oy = -33.75 if e < -8 else 8192.0 * rng.randint(-60, 60)
+        A = Affine(r, b, ox, d, -r, oy)
+        crs = rng.choice(["EPSG:4326", None]) if e < -8 else rng.choice(["EPSG:3857", "EPSG:32633", None])
     else:  # sheared
         A = Affine(rng.choice([1, 2, 10]), rng.choice([0.5, -1, 3]), tx, rng.choice([0, 0, 0.25]), rng.choice([-1, -2, 10]), ty)
     return GeoBox((ny, nx), A, crs)
@@ -324,6 +337,17 @@ def float_geobox(rng, Affine, GeoBox, kind):
             A = Affine.translation(tx, ty) * Affine.rotation(math.degrees(ang) * rng.choice([1, -1])) * Affine.scale(r, -r)
         else:
             A = Affine(r, off * rng.choice([1, -1]), tx, rng.choice([0, off / 3]), -r, ty)
+    elif kind == "small-angle":
+        # every pixel-size scale (1e-6 deg ... 1e5 m) x small angles (0.01 ... 5 deg): off-diagonals 1e-10 ... 1e4
+        ny, nx = rng.choice([40, 600, 2000]), rng.choice([50, 800, 3000])
+        r = 10 ** rng.uniform(-6, -1) if crs == "EPSG:4326" else 10 ** rng.uniform(-2, 5)
+        ang = 10 ** rng.uniform(-2, math.log10(5)) * rng.choice([1, -1])
+        if crs != "EPSG:4326":
+            tx, ty = rng.uniform(-5e6, 5e6), rng.uniform(-8e6, 8e6)
+        if rng.random() < 0.7:
+            A = Affine.translation(tx, ty) * Affine.rotation(ang) * Affine.scale(r, -r)
+        else:
+            A = Affine.translation(tx, ty) * Affine.shear(ang, rng.choice([0, ang / 2])) * Affine.scale(r, -r)
     else:
         A = Affine.translation(tx, ty) * Affine.shear(rng.uniform(-30, 30), rng.uniform(-10, 10)) * Affine.scale(r, -r)
     return GeoBox((ny, nx), A, crs)
@@ -537,11 +561,24 @@ def run(R: Run):
                     R.corr(f"c09 sel {n} {opt_s(a)} {opt_s(b)} {st}", lambda: list_s(X[a:b:st].tolist()),
                            sig=f"spec-sel|{'pos' if st > 0 else 'neg'}")
 
+    # --- the tolerance constant of is_affine_st (which boxes are written with world labels): inputs straddling 1e-10
+    t10 = 1e-10
+    offs = [0.0, 0.9e-10, t10, math.nextafter(t10, 0), math.nextafter(t10, 1), 1.1e-10, 1e-12, 1e-9, 1e-8, 1e-7, 1e-6, 1e-5, 1e-3,
+            2.0 ** -34, 2.0 ** -33, 2.0 ** -20]
+    from odc.geo.math import is_affine_st
+
+    for b in offs:
+        for d in offs[:8] + [2.0 ** -33]:
+            for sb, sd in ((1, 1), (-1, 1), (1, -1)):
+                A = Affine(2.0 ** -19, sb * b, 151.25, sd * d, -(2.0 ** -19), -33.75)
+                R.corr(f"c09 isst {aff_s(A)}", lambda: "T" if is_affine_st(A) else "F",
+                       sig="isst|" + ("band" if max(b, d) < t10 else "edge" if min(abs(b - t10), abs(d - t10)) < 1e-11 else "rot"))
+
     # --- corpus: the defects found for this property (fixed on branch fix-C09) stay as regression cases
     corpus(R, mods)
 
     # --- exact stream: wrap -> ops -> recover, compared with the model
-    kinds = ["north-up", "mirrored", "rotated", "sheared", "gcp", "tiny-rot"]
+    kinds = ["north-up", "mirrored", "rotated", "sheared", "gcp", "tiny-rot", "small-angle"]
     small_shapes = [(1, 1), (1, 5), (5, 1), (2, 2), (1, 2), (2, 1), (3, 4)]
     cases = [(k, s) for k in kinds[:4] + ["tiny-rot"] for s in small_shapes]
     for _ in range(R.pick(300, 3000)):
@@ -570,7 +607,7 @@ def run(R: Run):
             box.append(yy)
             return arr_s(yy)
 
-        sig = (f"rt|{kind if kind == 'tiny-rot' else klass(g)}|{'1px|' if 1 in tuple(g.shape) else ''}ops{min(len(ops), 3)}"
+        sig = (f"rt|{kind if kind in ('tiny-rot', 'small-angle') else klass(g)}|{'1px|' if 1 in tuple(g.shape) else ''}ops{min(len(ops), 3)}"
                + ("|dask" if dask else "") + ("|name" if cn != "spatial_ref" else ""))
         R.corr(line, f, sig=sig)
         if len(box) == 2:
@@ -590,7 +627,7 @@ def run(R: Run):
 
     # --- float stream: arbitrary doubles, oracle only
     for _ in range(R.pick(340, 3400)):
-        kind = rng.choice(kinds + ["tiny-rot"])
+        kind = rng.choice(kinds + ["tiny-rot"])  # `kinds` already holds tiny-rot and small-angle once
         g = gcp_geobox(rng, mods, exact=False) if kind == "gcp" else float_geobox(rng, Affine, GeoBox, kind)
         big = max(g.shape) > 100
         nt = rng.choice([None, None, 2]) if not big else None
